@@ -11,23 +11,29 @@ import (
 	"crypto/sha256"
 	"flag"
 	"fmt"
+	"math/big"
 	"strings"
 	"sync"
 	"time"
 
 	"github.com/cloudflare/circl/blindsign/blindrsa"
+	pbrsa "github.com/cloudflare/circl/blindsign/blindrsa/partiallyblindrsa"
 	"github.com/cloudflare/circl/dh/x25519"
 	"github.com/cloudflare/circl/ecc/bls12381"
+	"github.com/cloudflare/circl/ecc/goldilocks"
 	"github.com/cloudflare/circl/group"
 	"github.com/cloudflare/circl/hpke"
 	"github.com/cloudflare/circl/kem"
 	kemschemes "github.com/cloudflare/circl/kem/schemes"
+	"github.com/cloudflare/circl/kem/sike/sikep434"
 	"github.com/cloudflare/circl/oprf"
 	"github.com/cloudflare/circl/secretsharing"
 	"github.com/cloudflare/circl/sign"
 	"github.com/cloudflare/circl/sign/bls"
 	signschemes "github.com/cloudflare/circl/sign/schemes"
 	trsa "github.com/cloudflare/circl/tss/rsa"
+	"github.com/cloudflare/circl/vdaf/prio3/count"
+	"github.com/cloudflare/circl/vdaf/prio3/sumvec"
 	"github.com/cloudflare/circl/zzverif/vlib"
 )
 
@@ -378,14 +384,129 @@ func kinds(seed int64) []kind {
 			}
 		}})
 	}
+	// ---- partially blind RSA: one Verifier shared by the goroutines
+	{
+		pbKey, err := rsa.GenerateKey(vlib.SeededReader{R: rng}, 1024)
+		if err != nil {
+			vlib.Die("%v", err)
+		}
+		pv := pbrsa.NewVerifier(&pbKey.PublicKey, crypto.SHA384)
+		ks = append(ks, kind{"pbrsa.verifier", func(round int) []namedCall {
+			blind := new(big.Int).SetBytes(seedOf(round, 7, 64))
+			blind.Mod(blind, pbKey.N)
+			inv := new(big.Int).ModInverse(blind, pbKey.N)
+			if inv == nil {
+				vlib.Die("blind not invertible")
+			}
+			return []namedCall{
+				{"FixedBlind", func(g int) []byte {
+					msg := bytes.Repeat([]byte{byte(g)}, 3000)
+					bm, _, err := pv.FixedBlind(msg, []byte("metadata"), seedOf(round, g, 48), blind.Bytes(), inv.Bytes())
+					return must(bm, err)
+				}},
+			}
+		}})
+	}
+	// ---- Prio3: one VDAF instance shared by the goroutines
+	ks = append(ks, kind{"prio3.count+sumvec", func(round int) []namedCall {
+		c, err := count.New(2, []byte("ctx"))
+		if err != nil {
+			vlib.Die("%v", err)
+		}
+		sv, err := sumvec.New(2, 20, 8, 4, []byte("ctx"))
+		if err != nil {
+			vlib.Die("%v", err)
+		}
+		cp, sp := c.Params(), sv.Params()
+		return []namedCall{
+			{"Count.Shard", func(g int) []byte {
+				var nonce count.Nonce
+				copy(nonce[:], seedOf(round, g, len(nonce)))
+				pub, in, err := c.Shard(g%2 == 0, &nonce, seedOf(round, g+40, int(cp.RandSize())))
+				if err != nil {
+					return must(nil, err)
+				}
+				out := must(pub.MarshalBinary())
+				for i := range in {
+					out = append(out, must(in[i].MarshalBinary())...)
+				}
+				return out
+			}},
+			{"SumVec.Shard", func(g int) []byte {
+				var nonce sumvec.Nonce
+				copy(nonce[:], seedOf(round, g, len(nonce)))
+				meas := make([]uint64, 20)
+				for i := range meas {
+					meas[i] = uint64((g*7 + i) % 256)
+				}
+				pub, in, err := sv.Shard(meas, &nonce, seedOf(round, g+40, int(sp.RandSize())))
+				if err != nil {
+					return must(nil, err)
+				}
+				out := must(pub.MarshalBinary())
+				for i := range in {
+					out = append(out, must(in[i].MarshalBinary())...)
+				}
+				return out
+			}},
+		}
+	}})
+	// ---- SIKE: Public() of an unmarshalled private key is computed lazily
+	{
+		sch := sikep434.Scheme()
+		_, sk0 := sch.DeriveKeyPair(vlib.Bytes(rng, sch.SeedSize()))
+		skb := must(sk0.MarshalBinary())
+		ks = append(ks, kind{"sike.p434", func(round int) []namedCall {
+			sk, err := sch.UnmarshalBinaryPrivateKey(skb)
+			if err != nil {
+				vlib.Die("%v", err)
+			}
+			return []namedCall{
+				{"Public", func(int) []byte { return must(sk.Public().MarshalBinary()) }},
+				{"Public.again", func(int) []byte { return must(sk.Public().MarshalBinary()) }},
+			}
+		}})
+	}
+	// ---- Goldilocks: a projective point shared as an operand
+	ks = append(ks, kind{"goldilocks.point", func(round int) []namedCall {
+		var e goldilocks.Curve
+		var k, k2 goldilocks.Scalar
+		k.FromBytes(seedOf(round, 3, 56))
+		k2.FromBytes(seedOf(round, 4, 56))
+		P := e.ScalarBaseMult(&k)
+		return []namedCall{
+			{"MarshalBinary(shared)", func(int) []byte { return must(P.MarshalBinary()) }},
+			{"ScalarMult(shared operand)", func(g int) []byte {
+				if g%2 == 0 {
+					return must(P.MarshalBinary())
+				}
+				return must(e.ScalarMult(&k2, P).MarshalBinary())
+			}},
+			{"IsEqual(shared operand)", func(g int) []byte {
+				if g%2 == 0 {
+					Q := e.Add(P, P)
+					return must(Q.MarshalBinary())
+				}
+				return must(P.MarshalBinary())
+			}},
+		}
+	}})
 	ks = append(ks, kind{"ecc.bls12381+x25519", func(round int) []namedCall {
 		p, q := bls12381.G1Generator(), bls12381.G2Generator()
 		var k x25519.Key
 		copy(k[:], seedOf(round, 1, 32))
 		return []namedCall{
 			{"Pair(shared)", func(int) []byte { return must(bls12381.Pair(p, q).MarshalBinary()) }},
-			{"G1.Hash", func(g int) []byte { r := new(bls12381.G1); r.Hash([]byte{byte(g % 2)}, nil); return r.BytesCompressed() }},
-			{"G2.Hash", func(g int) []byte { r := new(bls12381.G2); r.Hash([]byte{byte(g % 2)}, nil); return r.BytesCompressed() }},
+			{"G1.Hash", func(g int) []byte {
+				r := new(bls12381.G1)
+				r.Hash([]byte{byte(g % 2)}, nil)
+				return r.BytesCompressed()
+			}},
+			{"G2.Hash", func(g int) []byte {
+				r := new(bls12381.G2)
+				r.Hash([]byte{byte(g % 2)}, nil)
+				return r.BytesCompressed()
+			}},
 			{"x25519.KeyGen", func(int) []byte { var pub x25519.Key; x25519.KeyGen(&pub, &k); return pub[:] }},
 		}
 	}})
